@@ -3,6 +3,7 @@ package codecprops
 // C07 (codec level) - field exclusion is exact on both encode and decode.
 
 import (
+	"sort"
 	"errors"
 	"fmt"
 	"reflect"
@@ -26,7 +27,8 @@ type exclCase struct {
 	valCase
 	Spec []string `json:"spec"`
 	Wrap string   `json:"wrap"` // none elements entities
-	Mode string   `json:"mode"` // encode decode-offending decode-clean
+	Mode string   `json:"mode"` // encode decode-offending decode-clean decode-missing
+	Drop []int    `json:"drop,omitempty"` // decode-missing: picks of required fields removed from the clean document
 }
 
 // treePaths lists every path below a record value's wire tree (array items as "*"), with the kind of
@@ -107,6 +109,83 @@ func prune(tr *refcodec.Tree, spec pathmodel.Spec, prefix []string, removed, vis
 			prune(x, spec, p, removed, visited)
 		}
 	}
+}
+
+// missingNotExcluded lists (in the library's path syntax) the required fields absent from the tree whose path the spec does
+// not exclude: exactly what a decoder configured with the spec must report.
+func missingNotExcluded(t schema.Type, tr *refcodec.Tree, path string, segs []string, spec pathmodel.Spec, out *[]string) {
+	join := func(seg string) string {
+		if path == "" {
+			return seg
+		}
+		return path + "." + seg
+	}
+	add := func(seg string) []string { return append(append([]string(nil), segs...), seg) }
+	switch {
+	case t.Prim != "":
+		return
+	case t.Array != nil:
+		for i, x := range tr.Arr {
+			missingNotExcluded(*t.Array, x, fmt.Sprintf("%s[%d]", path, i), add("*"), spec, out)
+		}
+		return
+	case t.Map != nil:
+		for _, kv := range tr.Obj {
+			missingNotExcluded(*t.Map, kv.V, join(kv.K), add(kv.K), spec, out)
+		}
+		return
+	}
+	n := S.Lookup(*t.Ref)
+	switch n.Kind {
+	case "record", "complexkey":
+		for _, f := range S.AllFields(n) {
+			x := tr.Get(f.Name)
+			if x == nil {
+				if f.Required() && !spec.Excluded(add(f.Name)) {
+					*out = append(*out, join(f.Name))
+				}
+				continue
+			}
+			missingNotExcluded(f.Type, x, join(f.Name), add(f.Name), spec, out)
+		}
+	case "union":
+		if len(tr.Obj) == 1 {
+			for _, m := range n.Members {
+				if m.Alias == tr.Obj[0].K {
+					missingNotExcluded(m.Type, tr.Obj[0].V, join(m.Alias), add(m.Alias), spec, out)
+				}
+			}
+		}
+	}
+}
+
+// dropRequired removes up to two required record fields (chosen by the picks) from the tree, at any depth.
+func dropRequired(t schema.Type, tr *refcodec.Tree, picks []int) int {
+	var sites []fieldSite
+	collectSites(t, tr, 0, false, &sites)
+	var req []fieldSite
+	for _, s := range sites {
+		if s.field.Required() {
+			req = append(req, s)
+		}
+	}
+	n := 0
+	for _, p := range picks {
+		if len(req) == 0 {
+			break
+		}
+		s := req[p%len(req)]
+		kept := s.obj.Obj[:0]
+		for _, kv := range s.obj.Obj {
+			if kv.K != s.field.Name {
+				kept = append(kept, kv)
+			} else {
+				n++
+			}
+		}
+		s.obj.Obj = kept
+	}
+	return n
 }
 
 func wrapTree(tr *refcodec.Tree, wrap string) (*refcodec.Tree, int) {
@@ -207,10 +286,18 @@ func checkExclusion(rec *stats.Recorder, c exclCase) (msg string, known string) 
 		if d := aval.Diff(wv, gv, ""); d != "" {
 			return fail("encoder did not omit exactly the matching values: "+d+"\n expected document="+pruned.String(), doc)
 		}
-	case "decode-offending", "decode-clean":
+	case "decode-offending", "decode-clean", "decode-missing":
 		src := full
 		if c.Mode == "decode-clean" {
 			src = pruned
+		}
+		var wantMissing []string
+		if c.Mode == "decode-missing" {
+			// a clean document from which required fields were removed: exactly the ones the spec does not exclude are missing
+			src = pruned.Clone()
+			dropRequired(t, src, c.Drop)
+			missingNotExcluded(t, src, "", nil, spec, &wantMissing)
+			sort.Strings(wantMissing)
 		}
 		wrapped, ignore := wrapTree(src.Clone(), c.Wrap)
 		var doc string
@@ -236,6 +323,21 @@ func checkExclusion(rec *stats.Recorder, c exclCase) (msg string, known string) 
 		}
 		offending := c.Mode == "decode-offending" && removed > 0
 		var ex restlicodec.ExcludedFieldError
+		if c.Mode == "decode-missing" && len(wantMissing) > 0 {
+			var miss *restlicodec.MissingRequiredFieldsError
+			if err == nil {
+				return fail(fmt.Sprintf("required fields %v are absent (and not excluded) but the document was accepted", wantMissing), doc)
+			}
+			if !errors.As(err, &miss) {
+				return fail(fmt.Sprintf("required fields %v are absent but the error is of another kind (%T): %v", wantMissing, err, err), doc)
+			}
+			got := append([]string(nil), miss.Fields...)
+			sort.Strings(got)
+			if strings.Join(got, ",") != strings.Join(wantMissing, ",") {
+				return fail(fmt.Sprintf("missing-required-fields error lists %v, want %v (absent, required and not excluded by the spec)", got, wantMissing), doc)
+			}
+			return "", ""
+		}
 		switch {
 		case offending && err == nil:
 			return fail("a document carrying a value at an excluded path was accepted", doc)
@@ -398,7 +500,7 @@ func walkKinds(t schema.Type, path []string, f func(i int, kind string)) {
 }
 
 func TestC07Codec(t *testing.T) {
-	g := &aval.Gen{S: S, MaxDepth: 4, PlainKeys: true}
+	g := &aval.Gen{S: S, MaxDepth: 4, PlainKeys: true, ExtraKeys: []string{"[system]", "[0]", "[x", "a[1]", "[]"}}
 	rec := stats.For("C07")
 	if c, ok := hx.Replay[exclCase]("C07", "exclusion"); ok {
 		if msg, _ := checkExclusion(rec, c); msg != "" {
@@ -412,13 +514,17 @@ func TestC07Codec(t *testing.T) {
 	rapid.Check(t, func(rt *rapid.T) {
 		var c exclCase
 		ty := drawType(rt, records)
-		c.Mode = rapid.SampledFrom([]string{"encode", "decode-offending", "decode-clean"}).Draw(rt, "mode")
+		c.Mode = rapid.SampledFrom([]string{"encode", "decode-offending", "decode-clean", "decode-missing"}).Draw(rt, "mode")
 		if c.Mode == "encode" {
 			c.Format = rapid.SampledFrom([]string{"json", "pretty", "header"}).Draw(rt, "fmt")
 			c.Wrap = "none"
 		} else {
 			c.Format = rapid.SampledFrom([]string{"json", "header", "any"}).Draw(rt, "fmt")
 			c.Wrap = rapid.SampledFrom([]string{"none", "elements", "entities"}).Draw(rt, "wrap")
+		}
+		if c.Mode == "decode-missing" {
+			c.Wrap = "none"
+			c.Drop = rapid.SliceOfN(rapid.IntRange(0, 1000), 1, 2).Draw(rt, "drop")
 		}
 		v := g.Value(rt, ty, 0)
 		c.valCase = valCase{CorpusSeed: corpusSeed, Type: ty.String(), Format: c.Format, Value: v}
